@@ -24,11 +24,14 @@ GInit == /\ \E S \in SUBSET Listable :
          /\ localMap = <<>> /\ auditMap = <<>>
          /\ pc = [t \in Threads |-> "idle"] /\ cur = [t \in Threads |-> Idle]
          /\ lastOther = [div |-> FALSE, same |-> TRUE]
-         /\ truth = [s \in SPorts |-> None]
+         /\ truth = [s \in SPorts |-> None] /\ left = [s \in SPorts |-> None]
          /\ hist = << [a |-> "init", listed |-> {[ip |-> k.ip, port |-> k.port] : k \in DOMAIN policy}, skip |-> skip] >>
 
+\* the kernel hands out the smallest port nothing is known about, or a port whose connection ended while its
+\* record stayed in the map (a leftover): the reuse C06 has to survive
 FreePorts == {s \in SPorts : truth[s] = None /\ ~HasRec(s)}
-NextPort == IF FreePorts = {} THEN {} ELSE {CHOOSE s \in FreePorts : \A x \in FreePorts : s <= x}
+LeftPorts == {s \in SPorts : truth[s] = None /\ HasRec(s)}
+NextPort == LeftPorts \cup (IF FreePorts = {} THEN {} ELSE {CHOOSE s \in FreePorts : \A x \in FreePorts : s <= x})
 
 \* Each kind of step is ONE action for TLC (the leading conjunct keeps TLC from splitting the quantifiers into one
 \* action per parameter value), so the simulator chooses the kind uniformly and only then the parameters.
@@ -42,8 +45,16 @@ GSkip == /\ One
          /\ \E p \in AgentPids : SkipAdd(p) /\ hist' = Append(hist, [a |-> "skip_add", pid |-> p, after |-> After])
 GRelease == /\ One
             /\ \E s \in SPorts : Release(s) /\ hist' = Append(hist, [a |-> "release", sport |-> s, had |-> HasRec(s), after |-> After])
+GEndUnc == /\ One
+           /\ \E s \in SPorts : EndUnconsumed(s) /\ hist' = Append(hist, [a |-> "end_unconsumed", sport |-> s, had |-> HasRec(s),
+                                                                          after |-> After])
+\* The replay runs on the real maps (200 entries), which do not evict where a map of K entries would: the generator
+\* keeps every behaviour below the capacity, leftovers included (LRU eviction of a leftover is exhaustively checked in
+\* mc/EbpfLeft.cfg and driven on the real program by the directed run "lru-evicts-leftover" of checks/c06.py).
+NoEvict == InFlight < K
+
 GConnect4(protos) ==
-  /\ One
+  /\ One /\ (TCP \in protos => NoEvict)
   /\ \E t \in Threads, ip \in Ips, port \in Ports, proto \in protos :
        /\ Connect4(t, ip, port, proto)
        /\ hist' = Append(hist, [a |-> "connect4", t |-> t, ip |-> ip, port |-> port, proto |-> proto,
@@ -52,20 +63,20 @@ GConnect4(protos) ==
                                 after |-> After])
 GTcp == /\ One
         /\ \E t \in Threads, s \in NextPort :
-             /\ TcpConnect(t, s)
+             /\ TcpConnectAt(t, s)
              /\ hist' = Append(hist, [a |-> "tcp", t |-> t, sport |-> s, dip |-> cur[t].nip, dport |-> cur[t].nport,
-                                      after |-> After])
-GDirect == /\ One
+                                      over |-> Leftover(s), div |-> cur[t].div, after |-> After])
+GDirect == /\ One /\ NoEvict
            /\ \E t \in Threads, ip \in Ips, port \in Ports, s \in NextPort :
                 /\ TcpConnectDirect(t, ip, port, s)
                 /\ hist' = Append(hist, [a |-> "tcp_direct", t |-> t, sport |-> s, dip |-> ip, dport |-> port,
-                                         after |-> After])
+                                         over |-> Leftover(s), div |-> FALSE, after |-> After])
 
 \* TLC evaluates invariants on every candidate successor; the single-successor closing step makes sure exactly the
 \* behaviour that was walked is printed, once.
 GEnd == /\ Len(hist) = GenDepth + 1 /\ hist' = Append(hist, [a |-> "end"]) /\ UNCHANGED vars
 
-GNext == GEnd \/ GPolicy \/ GSkip \/ GRelease \/ GConnect4({TCP}) \/ GConnect4(Protos \ {TCP}) \/ GTcp \/ GDirect
+GNext == GEnd \/ GPolicy \/ GSkip \/ GRelease \/ GEndUnc \/ GConnect4({TCP}) \/ GConnect4(Protos \ {TCP}) \/ GTcp \/ GDirect
 
 GSpec == GInit /\ [][GNext]_gvars
 
